@@ -581,8 +581,24 @@ func writeEvidence(property, tier string, seed int, all []*Obligation, funcs []f
 	nTriv, nDis, violations int, wall float64, tsets []string, progs []*Program) {
 	var samples []interface{}
 	perKind := map[string]int{}
+	perStage := map[string]int{}
 	for _, ob := range all {
 		perKind[ob.Kind]++
+		if ob.Result != nil && ob.Result.Status == "unsat" {
+			st := "plain query (" + ob.Result.Solver + ")"
+			switch {
+			case ob.Result.Detail == "ground-core":
+				st = "ground core (no quantified hypotheses)"
+			case strings.HasPrefix(ob.Result.Detail, "skolemised, instances only"):
+				st = "skolemised variant, instances only (ground)"
+			case strings.HasPrefix(ob.Result.Detail, "skolemised"):
+				st = "skolemised variant, quantified hypotheses kept"
+			}
+			if strings.Contains(ob.Result.Detail, "antecedent(s) established") && !strings.Contains(ob.Result.Detail, " 0 antecedent") {
+				st += " + established antecedents"
+			}
+			perStage[st]++
+		}
 	}
 	sort.Slice(all, func(i, j int) bool { return all[i].Name < all[j].Name })
 	step := len(all)/12 + 1
@@ -597,7 +613,7 @@ func writeEvidence(property, tier string, seed int, all []*Obligation, funcs []f
 	}
 	sort.Strings(tb)
 	tb = append(tb, "go/packages + go/ssa (x/tools v0.29.0) faithfully represent the compiled code",
-		"z3 4.8.12, z3-new 5.1.0, cvc5 1.0 are sound when they answer unsat",
+		"z3 4.8.12, z3-new 5.1.0 (default and legacy arithmetic core), cvc5 1.0 are sound when they answer unsat",
 		"the VC generator (/verif/tool) itself")
 	var tl []string
 	for k := range transp {
@@ -620,6 +636,7 @@ func writeEvidence(property, tier string, seed int, all []*Obligation, funcs []f
 			"trusted_base":         tb,
 			"functions":            funcs,
 			"obligations_by_kind":  perKind,
+			"discharged_by_stage":  perStage,
 			"transparent_unfolded": tl,
 			"tag_sets":             tsets,
 			"solvers":              sv,
@@ -643,6 +660,8 @@ func assumptionList(progs []*Program) []string {
 		"interior pointers passed as parameters do not alias other parameters' objects",
 		"goroutine interleavings, the Go memory model, stack depth, real time and the allocator are not modelled",
 		"externals terminate",
+		"heap cells hold values of their Go type (a byte is 0..255, a slice length is not negative): assumed for every cell a load or a quantifier instance reads",
+		"proof-only lemma functions (verif_lemmas.go) and derives clauses are checked like any other contract; use clauses can only assume instances of separately proved lemmas",
 	}
 	seen := map[string]bool{}
 	for _, p := range progs {
@@ -659,7 +678,7 @@ func assumptionList(progs []*Program) []string {
 			}
 		}
 	}
-	sort.Strings(out[5:])
+	sort.Strings(out[7:])
 	return out
 }
 
